@@ -15,6 +15,7 @@ import (
 	"os"
 	"runtime"
 	"syscall"
+	"time"
 
 	"verifharness/c12/cspec"
 )
@@ -49,6 +50,9 @@ func main() {
 	// marker: a syscall that cannot succeed and touches nothing, visible in the trace
 	syscall.Mkdir(cspec.Marker, 0)
 	for i := 0; i < n; i++ {
+		if i > 0 && s.PauseUS > 0 {
+			time.Sleep(time.Duration(s.PauseUS) * time.Microsecond)
+		}
 		switch s.Op {
 		case "store":
 			c.Store(target, key, s.Outs)
